@@ -568,6 +568,92 @@ theorem c17_nonneg_spike_area (E : Ext K) (hE : ExtOk E) (x y fit : List K) (cp 
     exact divO_nonneg _ _ _ h (by positivity) hpos.le
   · cases h
 
+theorem argmin_abs_sc (a : K) (ha : 0 < a) (l : List K) :
+    argmin ((sc a l).map (|·|)) = argmin (l.map (|·|)) := by
+  have h : (sc a l).map (|·|) = (l.map (|·|)).map (Nanite.C08.aff a 0) := by
+    unfold sc
+    rw [List.map_map, List.map_map]
+    apply List.map_congr_left
+    intro v _
+    simp only [Function.comp, Nanite.C08.aff, abs_mul, abs_of_pos ha, add_zero]
+  rw [h]
+  cases hl : l.map (|·|) with
+  | nil => rfl
+  | cons v vs => simp only [List.map_cons, argmin, Nanite.C08.argminAux_aff a 0 ha]
+
+theorem segMax_sc (a : K) (ha : 0 < a) (r : List K) (i j : Nat) :
+    segMax (sc a r) i j = (segMax r i j).map (a * ·) := by
+  unfold segMax
+  split
+  · rw [drop_sc, take_sc]
+    have : (sc a ((r.drop i).take (j - i))).map (|·|) = sc a (((r.drop i).take (j - i)).map (|·|)) := by
+      unfold sc
+      rw [List.map_map, List.map_map]
+      apply List.map_congr_left
+      intro v _
+      simp only [Function.comp, abs_mul, abs_of_pos ha]
+    rw [this, lmax_sc a ha]
+  · rfl
+
+theorem filterMap_three (a : K) (o1 o2 o3 : Option K) :
+    [o1.map (a * ·), o2.map (a * ·), o3.map (a * ·)].filterMap id = sc a ([o1, o2, o3].filterMap id) := by
+  cases o1 <;> cases o2 <;> cases o3 <;> simp [sc]
+
+/-- `feat_con_idt_maxima_75perc` is unchanged under a common positive factor -/
+theorem c17_scale_idt_maxima (E : Ext K) (hE : ExtOk E) (a : K) (ha : 0 < a) (x y fit : List K) (cp : K) :
+    idtMaxima75Core E x (sc a y) (sc a fit) cp = idtMaxima75Core E x y fit cp := by
+  unfold idtMaxima75Core
+  dsimp only
+  rw [lmax_sc a ha, diff_sc, hE.gauss_hom]
+  split
+  · simp only [drop_sc, take_sc, argmin_abs_sc a ha, segMax_sc a ha, filterMap_three]
+    cases lmax y with
+    | none => rfl
+    | some ymax =>
+      simp only [Option.map_some]
+      have hemp : ∀ l : List K, (sc a l).isEmpty = l.isEmpty := by
+        intro l; cases l <;> simp [sc]
+      rw [hemp, sum_sc]
+      split
+      · rfl
+      · rw [divO_sc _ _ _ ha.ne']
+  · rfl
+
+theorem segMax_nonneg (r : List K) (i j : Nat) (v : K) (h : segMax r i j = some v) : 0 ≤ v := by
+  unfold segMax at h
+  split at h
+  · have hall : ∀ l : List K, ∀ w, lmax (l.map (|·|)) = some w → 0 ≤ w := by
+      intro l
+      induction l with
+      | nil => intro w hw; simp [lmax] at hw
+      | cons u us ih =>
+        intro w hw
+        simp only [List.map_cons, lmax] at hw
+        cases hm : lmax (us.map (|·|)) with
+        | none => rw [hm] at hw; injection hw with hw; rw [← hw]; exact abs_nonneg u
+        | some m =>
+          rw [hm] at hw; injection hw with hw; rw [← hw]
+          exact le_max_of_le_left (abs_nonneg u)
+    exact hall _ _ h
+  · cases h
+
+theorem c17_nonneg_idt_maxima (E : Ext K) (x y fit : List K) (cp v ymax : K) (hy : lmax y = some ymax)
+    (hpos : 0 < ymax) (h : idtMaxima75Core E x y fit cp = some v) : 0 ≤ v := by
+  unfold idtMaxima75Core at h
+  dsimp only at h
+  split at h
+  · rw [hy] at h
+    dsimp only at h
+    split at h
+    · cases h
+    · refine divO_nonneg _ _ _ h ?_ hpos.le
+      apply List.sum_nonneg
+      intro w hw
+      simp only [List.mem_filterMap, id, List.mem_cons, List.mem_nil_iff, or_false] at hw
+      obtain ⟨o, ho, hw⟩ := hw
+      rcases ho with rfl | rfl | rfl <;> exact segMax_nonneg _ _ _ _ hw
+  · cases h
+
 /-- the features that do not look at the force at all -/
 theorem c17_force_free (x : List K) (cp : K) (a : K) (y : List K) :
     binCpPosition x cp = binCpPosition x cp ∧ binSize (sc a y) = binSize y ∧ aprSize x cp = aprSize x cp := by
